@@ -24,3 +24,25 @@ Theorem C11_frame :
   out_R D (frame_R D Fm Fg) s (exec D host listened maxdepth fuel depth ii s f is).
 Proof. exact exec_frame. Qed.
 Print Assumptions C11_frame.
+
+(* the converse half: what an instance computes depends only on its footprint. Two stores with the same code that
+   agree on the memories in Fm and the globals in Fg (and may differ arbitrarily elsewhere — e.g. in what OTHER
+   instances did to THEIR state) give executions that proceed in lock step: same outcome kind, same trap, same
+   values and locals, and final stores that again agree on the footprint. Together with C11_frame: an instance
+   behaves exactly as it would if it were alone. *)
+From Verif Require Import Proofs.SemRelP.
+Theorem C11_noninterference :
+  forall D host listened maxdepth (s0 : store D) (Fm Fg : nat -> Prop),
+  (forall ii k fa ci tp tr nl body, okfp D s0 Fm Fg ii ->
+     nth_error (i_funcs (the_inst D s0 ii)) k = Some fa -> nth_error (s_funcs s0) fa = Some (FWasm ci tp tr nl body) -> okfp D s0 Fm Fg ci) ->
+  (forall ii ta fa ci tp tr nl body, okfp D s0 Fm Fg ii ->
+     i_tab (the_inst D s0 ii) = Some ta -> In (Some fa) (nth ta (s_tabs s0) []) ->
+     nth_error (s_funcs s0) fa = Some (FWasm ci tp tr nl body) -> okfp D s0 Fm Fg ci) ->
+  (forall h args g gargs ci tp tr nl body,
+     host h args = HReenter g gargs -> nth_error (s_funcs s0) g = Some (FWasm ci tp tr nl body) -> okfp D s0 Fm Fg ci) ->
+  forall fuel depth ii s1 s2 f is,
+  ok_frame D s0 Fm Fg s1 ii -> agree D Fm Fg s1 s2 ->
+  out_rel D D eq (agree D Fm Fg) (exec D host listened maxdepth fuel depth ii s1 f is)
+                                 (exec D host listened maxdepth fuel depth ii s2 f is).
+Proof. exact exec_noninterference. Qed.
+Print Assumptions C11_noninterference.
